@@ -1558,7 +1558,9 @@ class Stage:
             sub_expr.append(r)
         cat = vcat if transpose else hcat
         res = cat(sub_expr)
-        time = stage._method.control_grid
+        # time vector restricted to the sampled nodes (include_first/include_last)
+        control_grid = ca.vec(stage._method.control_grid)
+        time = vcat([control_grid[k] for k in ks])
         return time, res
 
     def _grid_integrator(self, stage, expr, grid, include_first=True, include_last=True):
